@@ -37,6 +37,9 @@ type c04Shape struct {
 	keys []c04Param
 	aok  bool // &allow-other-keys written in the lambda list
 	aux  []c04Param
+	// extraAlpha: further keyword names the vector generator may put in key position (key names of
+	// earlier definitions of the same function in a history); not part of the lambda list
+	extraAlpha []string
 }
 
 func c04Sym(name string) string { return "y:" + lib.Hex(name) }
@@ -289,6 +292,17 @@ func (sh c04Shape) keyAlphabet() []c04Arg {
 		a = append(a, c04Key(p.name))
 	}
 	a = append(a, c04Key("zz"))
+	for _, n := range sh.extraAlpha {
+		dup := false
+		for _, x := range a {
+			if x.lisp == ":"+n {
+				dup = true
+			}
+		}
+		if !dup {
+			a = append(a, c04Key(n))
+		}
+	}
 	if len(sh.req) > 0 {
 		a = append(a, c04Key(sh.req[0]))
 	}
@@ -473,7 +487,7 @@ func c04Vectors(sh c04Shape, rng *lib.Rng, full bool, budget int) [][]c04Arg {
 // ---------------------------------------------------------------------------------------------
 // implementation side
 
-var c04Contexts = []string{"lambda", "defun", "shadow", "funcall", "apply"}
+var c04Contexts = []string{"lambda", "defun", "shadow", "funcall", "apply", "defmacro"}
 
 // c04ObjWire renders a slip value as a wire term.
 func c04ObjWire(v slip.Object) string {
@@ -576,6 +590,16 @@ func (r *c04Runner) form(sh c04Shape, args []c04Arg, ctx string) (setup, form st
 			setup = "(defun " + fn + " " + ll + " " + body + ")"
 		}
 		return setup, "(" + fn + sp + al + ")"
+	case "defmacro":
+		// the macro receives the argument forms themselves: only self-evaluating arguments are used
+		fn, ok := r.defuns["macro "+ll]
+		if !ok {
+			r.n++
+			fn = fmt.Sprintf("c04m%d", r.n)
+			r.defuns["macro "+ll] = fn
+			setup = "(defmacro " + fn + " " + ll + " " + body + ")"
+		}
+		return setup, "(" + fn + sp + al + ")"
 	case "shadow":
 		var bs []string
 		for _, n := range names {
@@ -590,6 +614,16 @@ func (r *c04Runner) form(sh c04Shape, args []c04Arg, ctx string) (setup, form st
 	panic(ctx)
 }
 
+// c04SelfEvaluating: no argument is a quoted form (macros see the forms, not the values).
+func c04SelfEvaluating(args []c04Arg) bool {
+	for _, a := range args {
+		if strings.HasPrefix(a.lisp, "'") {
+			return false
+		}
+	}
+	return true
+}
+
 func (r *c04Runner) run(sh c04Shape, args []c04Arg, ctx string) (string, string, string) {
 	setup, form := r.form(sh, args, ctx)
 	if setup != "" {
@@ -599,9 +633,13 @@ func (r *c04Runner) run(sh c04Shape, args []c04Arg, ctx string) (string, string,
 	}
 	o := lib.EvalString(slip.NewScope(), form)
 	shown := form
-	if ctx == "defun" {
+	if ctx == "defun" || ctx == "defmacro" {
 		names, _ := sh.params()
-		shown = "(defun " + r.defuns[sh.llLisp()] + " " + sh.llLisp() + " (list " + strings.Join(names, " ") + ")) " + form
+		key, def := sh.llLisp(), "defun"
+		if ctx == "defmacro" {
+			key, def = "macro "+key, "defmacro"
+		}
+		shown = "(" + def + " " + r.defuns[key] + " " + sh.llLisp() + " (list " + strings.Join(names, " ") + ")) " + form
 	}
 	return c04Outcome(o), shown, o.Msg
 }
@@ -847,7 +885,7 @@ func c04Lambda(c *lib.Ctx) {
 		ctxs := c04Contexts
 		if !cs.sweep && !c.Thorough() {
 			// quick composite: lambda + defun always, one of the other contexts in turn
-			ctxs = []string{"lambda", "defun", c04Contexts[2+i%3]}
+			ctxs = []string{"lambda", "defun", c04Contexts[2+i%4]}
 		}
 		key := cs.sh.llLisp() + " " + c04ArgsLisp(cs.args)
 		c.Ev.Case(key, c04Nontrivial(cs, model))
@@ -859,6 +897,9 @@ func c04Lambda(c *lib.Ctx) {
 			c.Ev.Hist("model_outcome", model)
 		}
 		for _, ctx := range ctxs {
+			if ctx == "defmacro" && !c04SelfEvaluating(cs.args) {
+				continue
+			}
 			impl, form, msg := runner.run(cs.sh, cs.args, ctx)
 			evals++
 			expected, from := model, "model:ll.bind"
@@ -986,6 +1027,8 @@ func runC04(c *lib.Ctx) {
 			c04ReplayLambda(c, rec)
 		case "builtin":
 			c04ReplayBuiltin(c, rec)
+		case "history":
+			c04ReplayHistory(c, rec)
 		case "builtin-static":
 			c04ReplayStatic(c, rec)
 		default:
@@ -994,6 +1037,7 @@ func runC04(c *lib.Ctx) {
 		return
 	}
 	c04Lambda(c)
+	c04Histories(c)
 	c04Builtins(c)
 	sigs := []string{}
 	for _, v := range c.Violations {
@@ -1012,7 +1056,7 @@ func runC04(c *lib.Ctx) {
 	}
 	sort.Strings(keys)
 	c.Ev.Coverage["lambda_contexts"] = keys
-	c.Ev.Coverage["rule"] = "part (i): cases = (lambda-list shape, argument vector) evaluated in up to five call contexts; sweep = 35 minimal shapes (each parameter kind alone / in pairs) x systematic vectors of length 0..8 (positional counts, all key tails up to 2-3 pairs over declared/unknown/parameter-named keys, all key permutations, duplicates, odd and non-keyword tails), seed independent; composite = the 1680 shapes of the quantifier (thorough: all, quick: 1120 sampled by seed) x systematic + seeded random tails; part (ii): cells = (built-in, argc) for every function of every package, argc 0..documented max+2 (+4,+8,+16,+24 when unbounded). non-trivial = lambda list with >= 2 parameter kinds or argc at min-1, min, max, max+1; distinct by (shape, args) / (builtin, argc)"
+	c.Ev.Coverage["rule"] = "part (i): cases = (lambda-list shape, argument vector) evaluated in up to six call contexts (lambda, defun, shadowing let, funcall, apply, defmacro); sweep = 35 minimal shapes (each parameter kind alone / in pairs) x systematic vectors of length 0..8 (positional counts, all key tails up to 2-3 pairs over declared/unknown/parameter-named keys, all key permutations, duplicates, odd and non-keyword tails), seed independent; composite = the 1680 shapes of the quantifier (thorough: all, quick: 1120 sampled by seed) x systematic + seeded random tails; part (ii): cells = (built-in, argc) for every function of every package, argc 0..documented max+2 (+4,+8,+16,+24 when unbounded). non-trivial = lambda list with >= 2 parameter kinds or argc at min-1, min, max, max+1; distinct by (shape, args) / (builtin, argc)"
 }
 
 func c04DumpFindings(c *lib.Ctx, path string) {
